@@ -57,13 +57,29 @@ def gen_case(rng, quick):
             first_form = f
             ks = [ks[0]] + [k for k in ks[1:] if k > ks[0]]
     ffs = ffs[:len(ks)]
-    return dict(X=X, family=fam, init=init, ks=ks, ffs=[None if f is None else [f.numerator, f.denominator] for f in ffs],
+    # later stages may also state their count as a fraction / None when it resolves to the same number
+    forms = [first_form]
+    for k in ks[1:]:
+        form = "int"
+        r = rng.random()
+        if r < 0.15 and k == n // 2:
+            form = "none"
+        elif r < 0.45:
+            cands_f = [f for f in (0.25, 0.5, 0.75, 1.0, 0.29, 0.57, 0.9, 0.6, 0.4, 0.8) if int(n * f) == k]
+            if cands_f:
+                form = rng.choice(cands_f)
+        forms.append(form)
+    # exact power-of-two rescaling of the data (binary64 stays exact; catches absolute tolerances)
+    scale_pow = rng.choice([0, 0, 0, -8, -14, -20, 12])
+    return dict(X=X, family=fam, init=init, ks=ks, forms=forms, scale_pow=scale_pow, ffs=[None if f is None else [f.numerator, f.denominator] for f in ffs],
                 first_form=first_form)
 
 
 def run_impl(case):
     from skmatter.sample_selection import VoronoiFPS, FPS
-    X = np.array(case["X"], dtype=float)
+    sp = case.get("scale_pow", 0)
+    X = np.array(case["X"], dtype=float) * (2.0 ** sp)
+    unscale = 2.0 ** (-2 * sp)               # squared distances back to the integer lattice (exact)
     n = len(X)
     sel = VoronoiFPS(initialize=case["init"], n_to_select=case["ks"][0])
     out, sched = [], []
@@ -76,10 +92,11 @@ def run_impl(case):
         elif si == 0:
             sel.full_fraction = None
         nts = k
-        if si == 0 and case["first_form"] == "none":
+        form = case.get("forms", [case["first_form"]] + ["int"] * len(case["ks"]))[si]
+        if form == "none":
             nts = None
-        elif si == 0 and case["first_form"] != "int":
-            nts = case["first_form"]
+        elif form != "int":
+            nts = form
         sel.n_to_select = nts
         try:
             sel.fit(X, warm_start=(si > 0))
@@ -92,19 +109,20 @@ def run_impl(case):
             break
         sched += [[realised.numerator, realised.denominator]] * (int(sel.n_selected_) - nsel_prev)
         nsel_prev = int(sel.n_selected_)
-        haus = [float("inf") if math.isinf(h) else C.as_int_matrix(np.array([h]), "haus")[0] for h in sel.get_distance()]
-        seld = [float("inf") if math.isinf(h) else C.as_int_matrix(np.array([h]), "seld")[0]
+        haus = [float("inf") if math.isinf(h) else C.as_int_matrix(np.array([h * unscale]), "haus")[0]
+                for h in sel.get_distance()]
+        seld = [float("inf") if math.isinf(h) else C.as_int_matrix(np.array([h * unscale]), "seld")[0]
                 for h in sel.get_select_distance()]
         out.append(dict(sel=[int(i) for i in sel.selected_idx_], haus=haus,
                         vloc=[int(v) for v in sel.vlocation_of_idx], seld=seld, k=int(sel.n_selected_)))
     # reference: plain FPS on the same input
     ref = None
     if out and "error" not in out[-1]:
-        i0 = out[0]["sel"][0]
-        f = FPS(initialize=i0, n_to_select=out[-1]["k"]).fit(X)
+        # plain FPS with the SAME initialisation request (for 'random': the same random_state draw)
+        f = FPS(initialize=case["init"], n_to_select=out[-1]["k"]).fit(X)
         ref = dict(sel=[int(i) for i in f.selected_idx_],
-                   haus=[C.as_int_matrix(np.array([h]), "haus")[0] for h in f.get_distance()],
-                   seld=[float("inf") if math.isinf(h) else C.as_int_matrix(np.array([h]), "seld")[0]
+                   haus=[C.as_int_matrix(np.array([h * unscale]), "haus")[0] for h in f.get_distance()],
+                   seld=[float("inf") if math.isinf(h) else C.as_int_matrix(np.array([h * unscale]), "seld")[0]
                          for h in f.get_select_distance()])
     return dict(stages=out, sched=sched, ref=ref)
 
@@ -181,6 +199,9 @@ def run(ctx):
         stats["calibrated"] += c["ffs"][0] is None
         stats["calibrated_zero"] += c["ffs"][0] is None and bool(r["sched"]) and r["sched"][0][0] == 0
         stats["per_stage"] += len(set(map(str, c["ffs"]))) > 1
+        stats["scaled"] = stats.get("scaled", 0) + (c["scale_pow"] != 0)
+        stats["warm_frac_or_none"] = stats.get("warm_frac_or_none", 0) + any(f != "int" for f in c["forms"][1:])
+        stats["random_init"] = stats.get("random_init", 0) + (c["init"] == "random")
     seen, nontrivial = set(), 0
     for c, r in zip(cases, ress):
         if any("error" in s for s in r["stages"]):
